@@ -112,6 +112,12 @@ class C22(Property):
             kb = np.asarray(tr.Aberrations(aberration_coefficients=p, energy=1e5)._evaluate_from_angular_grid(alpha, phi))
         if np.abs(ka - kb).max() > 1e-7:
             return ctx.violation("roundtrip-changes-the-transfer-function", c, {"max_abs_diff": float(np.abs(ka - kb).max())})
+        # the other direction on the real code: cartesian -> polar -> cartesian reproduces the Cartesian coefficients
+        c2 = tr.polar2cartesian(tr.cartesian2polar(dict(cart)))
+        for s in CART:
+            sc = 1e-300 + max(abs(float(cart[k])) for k in CART if k[:3] == s[:3])
+            if abs(float(c2[s]) - float(cart[s])) > 1e-9 * sc:
+                return ctx.violation("cartesian-roundtrip-changes-a-coefficient", c, {"symbol": s, "before": float(cart[s]), "after": float(c2[s])})
         # a second round trip is a fixed point of the representation (magnitude signs normalised)
         q2 = {s: float(v) for s, v in tr.cartesian2polar(tr.polar2cartesian(dict(q))).items()}
         for s in ("C10", "C12", "C21", "C23", "C30", "C32", "C34"):
